@@ -2,6 +2,7 @@ package sym
 
 import (
 	"fmt"
+	"os"
 	"sort"
 
 	"golang.org/x/tools/go/ssa"
@@ -95,7 +96,12 @@ func (m *Machine) checkWith(extra ...*Term) (Result, Model) {
 	return m.solver.Check(m.pc, extra, true)
 }
 
+var debugDecisions = os.Getenv("GOSYM_DEBUG_DECISIONS") != ""
+
 func (m *Machine) pushWork(dec Decision, md Model) {
+	if debugDecisions {
+		m.decPos = append(m.decPos, fmt.Sprintf("%c@%s", dec.Kind, m.posStr(m.curPos)))
+	}
 	d := make([]Decision, len(m.trace)+1)
 	copy(d, m.trace)
 	d[len(m.trace)] = dec
@@ -526,6 +532,7 @@ func (m *Machine) resetPath(h *HarnessSpec, item WorkItem) {
 	m.params = h.Params
 	m.notes = nil
 	m.envVars = nil
+	m.decPos = nil
 	m.allocLimit = 0
 	m.vinfo = map[int]*varInfo{}
 	m.threads = nil
@@ -574,6 +581,9 @@ func (m *Machine) RunPath(h *HarnessSpec, item WorkItem) (*PathOutcome, []WorkIt
 	}()
 	if m.threads != nil {
 		m.threads.killAll()
+	}
+	if debugDecisions && len(m.decPos) > 0 {
+		fmt.Fprintf(os.Stderr, "DECISIONS %v\n", m.decPos)
 	}
 	m.out.Steps = m.steps
 	m.out.Decisions = len(m.trace)
